@@ -28,6 +28,8 @@ def apply(ctx, W):
             &&& final(self).type_registry.pointer_size == old(self).type_registry.pointer_size
             &&& final(self).type_registry.types@ == old(self).type_registry.types@.insert(item_definition.path, item_definition)
             &&& final(self).modules@.dom() == old(self).modules@.dom()
+            &&& modules_frame(old(self).modules@, final(self).modules@)
+            &&& final(self).modules@[spec_parent(item_definition.path)->0].ast == old(self).modules@[spec_parent(item_definition.path)->0].ast
             &&& spec_parent(item_definition.path) is Some && old(self).modules@.contains_key(spec_parent(item_definition.path)->0)
             &&& forall|k: ItemPath| #![trigger final(self).modules@[k]] old(self).modules@.contains_key(k) && Some(k) != spec_parent(item_definition.path)
                     ==> final(self).modules@[k] == old(self).modules@[k]
@@ -76,7 +78,7 @@ def apply(ctx, W):
         requires=["reg_wf(&old(semantic).type_registry)"],
         ensures=[
             ("reg_wf(&final(semantic).type_registry)", ("C01", "C02", "C03"), "build-keeps-reg-wf"),
-            ("final(semantic).modules@.dom() == old(semantic).modules@.dom()", ("C12", "C10"), "build-keeps-modules"),
+            ("modules_frame(old(semantic).modules@, final(semantic).modules@)", ("C05", "C10", "C12", "C14", "C15"), "build-keeps-modules"),
             ("registry_frame(&old(semantic).type_registry, &final(semantic).type_registry, *resolvee_path)", ("C10", "C19"), "attempt-frame"),
             ("keys_kept(&old(semantic).type_registry, &final(semantic).type_registry)", ("C10", "C14"), "keys-kept"),
             ("vftable_functions is None && first_base is None ==> res is Ok", ("C03",), "no-vftable-no-error"),
